@@ -33,7 +33,7 @@ func (c15) Batches(tier string, seed uint64) []core.Batch {
 	b = append(b, spread("truncate", 4, tierN(tier, 3, 30))...)
 	b = append(b, spread("members", 4, tierN(tier, 120, 1500))...)
 	b = append(b, spread("bytes", 8, tierN(tier, 1500, 20000))...)
-	return b
+	return append(b, conc(tierN(tier, 60, 400), "members", "bytes")...)
 }
 
 func (c15) Mandatory(tier string) []string {
@@ -300,6 +300,9 @@ func smallDeb(r *core.Rand) (debModel, []model.ArMember) {
 }
 
 func (p c15) RunBatch(t *core.T, b core.Batch) {
+	if concDispatch(p, t, b) {
+		return
+	}
 	r := t.Rand(b.Name, fmt.Sprint(b.Arg))
 	both := func(tag string, raw []byte) {
 		t.Case("ar-bytes", raw, func(c *core.C) { c.Cover(tag); p.arCase(c, raw) })
